@@ -50,7 +50,7 @@ var c08Forged = map[string]string{
 	"X-Forwarded-Proto": "https", "X-Forwarded-Port": "4443", "X-Forwarded-Host": "evil.example", "Forwarded": "for=9.9.9.9; proto=https",
 }
 
-// variant per managed header: 0 absent, 1 forged, 2 forged twice, 3 lower-case spelling
+// variant per managed header: 0 absent, 1 forged, 2 forged twice, 3 lower-case spelling, 4 present but empty, 5 two blank lines
 type c08Hdrs [8]int
 
 func c08Name(h string, cfg c08Cfg) string {
@@ -77,6 +77,10 @@ func c08Headers(v c08Hdrs, cfg c08Cfg, ws string) [][2]string {
 			out = append(out, [2]string{name, c08Forged[h]}, [2]string{name, c08Forged[h] + "0"})
 		case 3:
 			out = append(out, [2]string{strings.ToLower(name), c08Forged[h]})
+		case 4:
+			out = append(out, [2]string{name, ""})
+		case 5:
+			out = append(out, [2]string{name, " "}, [2]string{name, ""})
 		}
 	}
 	if ws != "" {
@@ -92,7 +96,7 @@ func c08Sent(v c08Hdrs, i int, cfg c08Cfg) bool {
 		return false
 	}
 	for j, h := range c08Managed {
-		if v[j] != 0 && http.CanonicalHeaderKey(c08Name(h, cfg)) == name {
+		if v[j] != 0 && v[j] < 4 && http.CanonicalHeaderKey(c08Name(h, cfg)) == name {
 			return true
 		}
 	}
@@ -233,7 +237,7 @@ func c08HeaderSets(full bool) []c08Hdrs {
 		out = append(out, c08Hdrs{1, 1, 1, 1, 1, 1, 1, 1})
 	}
 	for i := 0; i < 8; i++ {
-		for _, k := range []int{2, 3} {
+		for _, k := range []int{2, 3, 4, 5} {
 			var v c08Hdrs
 			v[i] = k
 			out = append(out, v)
@@ -273,7 +277,7 @@ func (c c08Cfg) apply(r *rig) {
 
 func TestVerifC08Headers(t *testing.T) {
 	L := ev.Begin("C08", "c08-headers", "exploration",
-		"header-related configuration (client-ip header none/custom/X-Real-Ip/X-Forwarded-For x TLS header none/set (canonical and non-canonical spellings) x LocalIP/HSTS variants x route host option none/name/dst) x connection plain/TLS x every subset of 8 fabio-managed headers forged by the client (2^8) plus repeated and lower-case spellings x Host with/without port x IPv4/IPv6 peer, served by the real HTTPProxy to a recording upstream; oracle = the six clauses of the statement. non-trivial = at least one forged header or a TLS connection")
+		"header-related configuration (client-ip header none/custom/X-Real-Ip/X-Forwarded-For x TLS header none/set (canonical and non-canonical spellings) x LocalIP/HSTS variants x route host option none/name/dst) x connection plain/TLS x every subset of 8 fabio-managed headers forged by the client (2^8) plus repeated, lower-case, empty and blank-line variants x Host with/without port x IPv4/IPv6 peer, served by the real HTTPProxy to a recording upstream; oracle = the six clauses of the statement. non-trivial = at least one forged header or a TLS connection")
 	cfgs := c08Configs()
 	sets := c08HeaderSets(true)
 	type job struct {
@@ -338,7 +342,7 @@ func TestVerifC08Headers(t *testing.T) {
 // websocket requests go through a real listener (the ws handler hijacks the connection)
 func TestVerifC08Websocket(t *testing.T) {
 	L := ev.Begin("C08", "c08-websocket", "exploration",
-		"websocket upgrades (Upgrade: websocket and Upgrade: Websocket) over real plain and TLS listeners: same configurations, each managed header absent / forged / forged twice / lower-case; the upstream records the upgrade request. non-trivial = every case (websocket path)")
+		"websocket upgrades (Upgrade: websocket / Websocket / WebSocket / WEBSOCKET) over real plain and TLS listeners: same configurations, each managed header absent / forged / forged twice / lower-case; the upstream records the upgrade request. non-trivial = every case (websocket path)")
 	cfgs := c08Configs()
 	sets := c08HeaderSets(false)
 	type job struct {
@@ -351,7 +355,7 @@ func TestVerifC08Websocket(t *testing.T) {
 	for _, c := range cfgs {
 		for _, conn := range []c08Conn{c08WS, c08WSS} {
 			for _, v := range sets {
-				for _, ws := range []string{"websocket", "Websocket"} {
+				for _, ws := range []string{"websocket", "Websocket", "WebSocket", "WEBSOCKET"} {
 					jobs = append(jobs, job{c, conn, v, ws})
 				}
 			}
